@@ -27,6 +27,7 @@ func main() {
 	listsyms := flag.Bool("listsyms", false, "debug: print struct fields and package variables of the module (input of an/refsyms.go)")
 	listinits := flag.Bool("listinits", false, "debug: print an/refinits.go (initialisers of package-level variables of the reference tree)")
 	listfuncs := flag.Bool("listfuncs", false, "debug: print the full names of all module functions (input of an/reffuncs.go)")
+	pairsdbg := flag.Bool("pairs", false, "debug: list struct fields that are always stored together (candidates for the paired-store rule)")
 	lintdbg := flag.Bool("lints", false, "debug: run every control-flow lint over every module function")
 	paritydbg := flag.String("parity", "", "debug: sibling-word parity, e.g. header,cookie")
 	flag.Parse()
@@ -100,6 +101,16 @@ func main() {
 		}
 		return
 	}
+	if *pairsdbg {
+		abs, _ := filepath.Abs(*repo)
+		ctx, err := an.Load(abs, "dump", "quick")
+		if err != nil {
+			fmt.Fprintln(os.Stderr, err)
+			os.Exit(2)
+		}
+		an.DiscoverFieldPairs(ctx)
+		return
+	}
 	if *lintdbg {
 		abs, _ := filepath.Abs(*repo)
 		ctx, err := an.Load(abs, "dump", "quick")
@@ -114,6 +125,9 @@ func main() {
 				}
 				for _, se := range an.SwallowedErrors(f) {
 					fmt.Printf("SWALLOW %s %s returns nil while %s is non-nil\n", ctx.Position(se.Ret.Pos()), f.Name, se.Err.Name())
+				}
+				if n, _ := an.CopySlips(f); n > 0 {
+					fmt.Printf("COPYFAMILIES %s %d\n", f.Name, n)
 				}
 				for _, sc := range an.SelfCopies(f) {
 					fmt.Printf("SELFCOPY %s %s %s mapped=%d missing=%v\n", ctx.Position(sc.Lit.Pos()), f.Name, sc.Type, sc.Mapped, sc.Missing)
